@@ -31,16 +31,23 @@ def load_module(name=None):
     return r[1]
 
 
+import collections as _collections
+
+# a tuple with field names: still a tuple (expanded by index), not a parsed object
+NamedPair = _collections.namedtuple('NamedPair', 'p q')
+
+
 class ForestGen:
     """Leaf identity is controlled: `shared_leaves` are re-used as the *same* object;
     `fresh` leaves are equal but distinct objects."""
 
-    def __init__(self, rng, g, containers=True, dicts=True, share=0.25, cycles=False):
+    def __init__(self, rng, g, containers=True, dicts=True, share=0.25, cycles=False, named_tuples=False):
         self.rng = rng
         self.g = g
         self.containers = containers
         self.dicts = dicts
         self.share = share
+        self.named_tuples = named_tuples
         self.pool = []          # already built objects / containers available for sharing
         self.shared_leaves = [None, 0, 1, 7, 256, 257, 10 ** 20, '', 'a', 'ab', 'shared-string-object', True, False,
                               1.5, b'by']
@@ -69,7 +76,10 @@ class ForestGen:
         elif c < 0.7 and self.containers:
             v = [self.value(depth - 1) for _ in range(r.randint(0, 3))]
         elif c < 0.8 and self.containers:
-            v = tuple(self.value(depth - 1) for _ in range(r.randint(0, 3)))
+            if self.named_tuples and r.random() < 0.25:
+                v = NamedPair(self.value(depth - 1), self.value(depth - 1))
+            else:
+                v = tuple(self.value(depth - 1) for _ in range(r.randint(0, 3)))
         elif c < 0.9 and self.containers and self.dicts:
             v = {k: self.value(depth - 1) for k in r.sample(['k1', 'k2', 3, None, 'k5'], r.randint(0, 3))}
         else:
